@@ -155,6 +155,10 @@ pub(crate) struct EstablishedConnection<TInEvent> {
     endpoint: ConnectedPoint,
     /// Channel endpoint to send commands to the task.
     sender: mpsc::Sender<task::Command<TInEvent>>,
+    /// Whether [`EstablishedConnection::start_close`] has been called. From then on a
+    /// `Close` command is queued in front of anything sent to the task, so the handler
+    /// will never see another event.
+    closing: bool,
 }
 
 impl<TInEvent> EstablishedConnection<TInEvent> {
@@ -186,6 +190,9 @@ impl<TInEvent> EstablishedConnection<TInEvent> {
         &mut self,
         cx: &mut Context<'_>,
     ) -> Poll<Result<(), ()>> {
+        if self.closing {
+            return Poll::Ready(Err(()));
+        }
         self.sender.poll_ready(cx).map_err(|_| ())
     }
 
@@ -193,6 +200,7 @@ impl<TInEvent> EstablishedConnection<TInEvent> {
     ///
     /// Has no effect if the connection is already closing.
     pub(crate) fn start_close(&mut self) {
+        self.closing = true;
         // Clone the sender so that we are guaranteed to have
         // capacity for the close command (every sender gets a slot).
         match self.sender.clone().try_send(task::Command::Close) {
@@ -532,6 +540,7 @@ where
             EstablishedConnection {
                 endpoint: endpoint.clone(),
                 sender: command_sender,
+                closing: false,
             },
         );
         self.established_connection_events.push(event_receiver);
